@@ -18,9 +18,29 @@ var procCounter int64
 type procOut struct {
 	res      proto.ProcResult
 	exit     int
-	captured string // tail of what arrived on fd 1/2 (library output or a runtime crash)
+	captured string // head and tail of what arrived on fd 1/2 (library output or a runtime crash)
 	err      error
+	crash    string   // the process died from a Go runtime fatal error / unrecovered panic inside library code
+	progress []string // lines of the progress file
 }
+
+// crashLine: if the captured output is a Go runtime crash whose trace goes through library
+// code, return its first line. A crash without a library frame is a harness problem.
+func crashLine(captured string) string {
+	msg := ""
+	for _, l := range strings.Split(captured, "\n") {
+		if msg == "" && (strings.HasPrefix(l, "fatal error:") || strings.HasPrefix(l, "panic:") || strings.HasPrefix(l, "runtime: goroutine stack exceeds") ||
+			strings.HasPrefix(l, "unexpected fault address") || strings.Contains(l, "SIGSEGV") || strings.Contains(l, "SIGBUS")) {
+			msg = l
+		}
+		if msg != "" && strings.Contains(l, libPathPrefix) && !strings.Contains(l, "zz_simrt") {
+			return msg
+		}
+	}
+	return ""
+}
+
+const libPathPrefix = "github.com/github/go-spdx/v2/"
 
 // runHarness starts one harness process with GOMAXPROCS=gmp and waits for it.
 func runHarness(bin string, gmp int, wall time.Duration, args ...string) procOut {
@@ -31,7 +51,8 @@ func runHarness(bin string, gmp int, wall time.Duration, args ...string) procOut
 	capf := filepath.Join(dir, fmt.Sprintf("cap.%d", n))
 	racef := filepath.Join(dir, fmt.Sprintf("race.%d", n))
 	full := append([]string{}, args...)
-	full = append(full, "-out", out, "-capture", capf)
+	progf := filepath.Join(dir, fmt.Sprintf("prog.%d", n))
+	full = append(full, "-out", out, "-capture", capf, "-progress", progf)
 	ctx, cancel := context.WithTimeout(context.Background(), wall)
 	defer cancel()
 	cmd := exec.CommandContext(ctx, bin, full...)
@@ -58,10 +79,26 @@ func runHarness(bin string, gmp int, wall time.Duration, args ...string) procOut
 		}
 	}
 	if b, e := os.ReadFile(capf); e == nil && len(b) > 0 {
-		if len(b) > 3000 {
-			b = b[len(b)-3000:]
+		if len(b) > 8000 {
+			b = append(append(append([]byte{}, b[:4000]...), []byte("\n[...]\n")...), b[len(b)-4000:]...)
 		}
 		po.captured = string(b)
+	}
+	if b, e := os.ReadFile(progf); e == nil {
+		po.progress = strings.Split(strings.TrimSpace(string(b)), "\n")
+	}
+	defer func() {
+		if !keep {
+			os.Remove(progf)
+		}
+	}()
+	if po.exit != 0 && po.exit != 3 && po.exit != 4 {
+		if c := crashLine(po.captured); c != "" {
+			po.crash = c
+			os.Remove(out)
+			os.Remove(capf)
+			return po
+		}
 	}
 	if e := readJSON(out, &po.res); e != nil {
 		po.err = fmt.Errorf("harness produced no result (exit %d): %v\n--- captured fd 1/2 ---\n%s", po.exit, e, po.captured)
@@ -106,14 +143,19 @@ func replayOnce(b builds, rec *proto.Record, tag string) (proto.ProcResult, erro
 	writeJSON(path, rec)
 	defer os.Remove(path)
 	args := []string{"replay", "-rec", path, "-build", rec.Build}
-	if rec.Run.Policy.Kind == "free" {
-		args = append(args, "-free")
-	}
 	gmp := 1
-	if rec.Run.Policy.Kind == "free" {
+	if rec.Run.Policy.Kind == "free" || degradedMode {
+		args = append(args, "-free")
 		gmp = 8
 	}
 	po := runHarness(binFor(b, rec.Build), gmp, 2*time.Minute, args...)
+	if po.crash != "" {
+		// the replay killed the process: that is the observation
+		out := *rec
+		out.Class = "crash"
+		out.Violations = []proto.Violation{{Class: "crash", Task: -1, Op: -1, Detail: "the process died while executing the recorded calls: " + po.crash, RaceLog: tail(po.captured, 3000)}}
+		return proto.ProcResult{Mode: "replay", Record: &out}, nil
+	}
 	if po.err != nil {
 		return po.res, po.err
 	}
